@@ -389,8 +389,12 @@ def thenComparing (r other : OrdD α) : OrdD α :=
     let res := r.compare a b
     if res == 0 then other.compare a b else res
 
-def reversed (r : OrdD α) : OrdD α :=
-  compareFunc fun a b => - r.compare a b
+/-- `CompareFunc.Reversed` after fix (session 6): `r.Compare(b, a)` - not the negation of `r.Compare(a, b)`, which overflows at
+    `math.MinInt` in Go (the model's `Int` is unbounded, so the two agree HERE for every antisymmetric compare function:
+    `Spec/C10.reversed_compare_neg`).  `LessFunc.Reversed` still negates (its `Compare` is -1 / 0 / 1). -/
+def reversed : OrdD α → OrdD α
+  | compareFunc r => compareFunc fun a b => r b a
+  | lessFunc r => compareFunc fun a b => - (lessFunc r).compare a b
 
 /-- an `fp.Ord` used where an `fp.Eq` is expected -/
 def toEq (o : OrdD α) : EqD α := ⟨o.eqv⟩
